@@ -67,15 +67,18 @@ class EliotFilter(object):
 
         @return: The resulting object.
         """
+        # (J etc. as globals of the expression, not as eval() locals: generator
+        # expressions, comprehensions and lambdas inside the expression have
+        # a scope of their own and cannot see eval()'s locals)
         return eval(
             self.code,
-            globals(),
-            {
-                "J": message,
-                "timedelta": timedelta,
-                "datetime": datetime,
-                "SKIP": self._SKIP,
-            },
+            dict(
+                globals(),
+                J=message,
+                timedelta=timedelta,
+                datetime=datetime,
+                SKIP=self._SKIP,
+            ),
         )
 
 
